@@ -536,6 +536,7 @@ func init() {
 			items = append(items, Item{Name: "rejected-records-next-to-records", MaxDevs: -1, Run: c09RejectedRecordsScenario})
 			items = append(items, Item{Name: "language-tables", MaxDevs: -1, Run: c09LangTableScenario})
 			items = append(items, Item{Name: "environment-namespaces", MaxDevs: -1, Run: c09EnvNamespaceScenario})
+			items = append(items, Item{Name: "environment-definition-order", MaxDevs: -1, Run: c09EnvDefinitionOrderScenario})
 			// every message is the formatter's answer for its own issue, whatever was formatted just before it:
 			// the shape grammar and the small catalogue skeletons again, under a formatter that names path and code
 			for _, it := range coreItemsFiltered(tier, c09Scenario, func(a *Alpha) { a.Lite = true }, []int{0, 1}, 2, func(ns NamedSkel) bool {
@@ -555,4 +556,58 @@ func init() {
 			return items
 		},
 	})
+}
+
+// The environment lists its variables in the order they were defined. A schema read from it must give the same
+// result for every definition order, also when variables exist whose names differ from a field's key only by
+// letter case (they are other variables).
+func c09EnvDefinitionOrderScenario(x *mc.X) *mc.Outcome {
+	exact := x.Choose(2, "exactly named variables defined") == 1
+	nvar := 2 + x.Choose(2, "case variants per key")
+	perm := x.Choose(6, "definition order")
+	type kv struct{ k, v string }
+	base := []kv{{"C09ORD_PORT", "8080"}, {"c09ord_port", "9090"}, {"C09Ord_Port", "70000x"}}[:nvar]
+	base2 := []kv{{"C09ORD_NAME", "ab"}, {"c09ord_name", "abcdef"}, {"C09Ord_Name", ""}}[:nvar]
+	perms := [][]int{{0, 1, 2}, {0, 2, 1}, {1, 0, 2}, {1, 2, 0}, {2, 0, 1}, {2, 1, 0}}
+	run := func(p []int) (*Obs, string) {
+		zh.Reset()
+		zh.Install(x, zh.PoolLIFO, zh.OrderSorted)
+		var all []kv
+		for _, i := range p {
+			if i < nvar {
+				all = append(all, base[i], base2[i])
+			}
+		}
+		if exact {
+			all = append(all, kv{"c09Ord_port", "1234"}, kv{"c09Ord_name", "exact"})
+		}
+		for _, e := range all {
+			os.Unsetenv(e.k)
+		}
+		for _, e := range all {
+			os.Setenv(e.k, e.v)
+		}
+		defer func() {
+			for _, e := range all {
+				os.Unsetenv(e.k)
+			}
+		}()
+		s := z.Struct(z.Schema{"c09Ord_port": z.Int().LT(65536), "c09Ord_name": z.String().Min(3).Required()})
+		var d struct {
+			C09Ord_port int
+			C09Ord_name string
+		}
+		o := RunParse(s, zenv.NewDataProvider(), reflect.ValueOf(&d))
+		zh.Reset()
+		return o, fmt.Sprintf("%+v", d)
+	}
+	bo, bd := run(perms[0])
+	po, pd := run(perms[perm])
+	out := &mc.Outcome{Traces: 2, Nontrivial: perm != 0, Sig: fmt.Sprintf("envorder|%v|%d|%s|%v", exact, nvar, bd, bo.IssueStrings())}
+	out.Sample = map[string]any{"exact_defined": exact, "variants": nvar, "definition_order": perms[perm], "dest": bd, "issues": bo.IssueStrings(), "panic": bo.Panic}
+	if bo.Panic != "" || bo.Panic != po.Panic || !eqStrings(bo.IssueStrings(), po.IssueStrings()) || bd != pd {
+		x.Note("fields c09Ord_port / c09Ord_name; variables spelled in %d other letter cases, defined in order %v (exactly named variables defined: %v)", nvar, perms[perm], exact)
+		out.Viol = append(out.Viol, &mc.Violation{Key: "C09:environment-definition-order", What: "the result of reading the environment depends on the order in which its variables were defined", Expected: bd + " " + fmt.Sprint(bo.IssueStrings()), Observed: pd + " " + fmt.Sprint(po.IssueStrings())})
+	}
+	return out
 }
